@@ -120,6 +120,9 @@ type Exec struct {
 	ideal      *idealState
 	ghost      map[string]Value
 	concrete   map[int]int64
+	views      map[string]*viewDef
+	viewSeq    int
+	viewDefMemo map[int]*Term
 	harness    string
 	endReason  string
 	lastModel  map[string]interface{}
@@ -269,6 +272,12 @@ func (ex *Exec) concretize(t *Term, what string) int64 {
 func (ex *Exec) solve(cons []*Term, wantModel bool) (Result, map[string]interface{}) {
 	ex.Queries++
 	npc := len(ex.pc)
+	if len(ex.views) > 0 {
+		if defs := ex.viewDefs(cons); len(defs) > 0 {
+			// definitions go in front so that the pc/extra split below still holds
+			return ex.solveWithDefs(cons, defs, wantModel)
+		}
+	}
 	if len(cons) >= npc && npc > 0 && sameHead(cons, ex.pc) && len(cons) > npc {
 		sl := ex.slice(cons[:npc], cons[npc:])
 		ex.S.NeedModel = wantModel && len(sl) == len(cons)
@@ -284,6 +293,66 @@ func (ex *Exec) solve(cons []*Term, wantModel bool) (Result, map[string]interfac
 	}
 	ex.S.NeedModel = wantModel
 	res := ex.S.Check(ex.C, cons)
+	ex.S.NeedModel = false
+	if res != Sat || !wantModel {
+		return res, nil
+	}
+	return res, ex.model()
+}
+
+// viewDefs returns view!k(i) = content[off+i] for every view application that
+// occurs in ts (transitively through the definitions themselves).
+func (ex *Exec) viewDefs(ts []*Term) []*Term {
+	if ex.viewDefMemo == nil {
+		ex.viewDefMemo = map[int]*Term{}
+	}
+	var defs []*Term
+	seen := map[int]bool{}
+	var visit func(t *Term)
+	visit = func(t *Term) {
+		if seen[t.ID] {
+			return
+		}
+		seen[t.ID] = true
+		if t.Op == OUF && len(t.Args) == 1 {
+			if v := ex.viewOf(t.Name); v != nil {
+				d, ok := ex.viewDefMemo[t.ID]
+				if !ok {
+					d = ex.C.Eq(t, ex.resolveView(t))
+					ex.viewDefMemo[t.ID] = d
+				}
+				defs = append(defs, d)
+				visit(d)
+			}
+		}
+		for _, a := range t.Args {
+			visit(a)
+		}
+	}
+	for _, t := range ts {
+		visit(t)
+	}
+	return defs
+}
+
+func (ex *Exec) solveWithDefs(cons, defs []*Term, wantModel bool) (Result, map[string]interface{}) {
+	npc := len(ex.pc)
+	if len(cons) > npc && npc > 0 && sameHead(cons, ex.pc) {
+		sl := ex.slice(append(append([]*Term(nil), cons[:npc]...), defs...), cons[npc:])
+		ex.S.NeedModel = wantModel && len(sl) == len(cons)+len(defs)
+		res := ex.S.Check(ex.C, sl)
+		ex.S.NeedModel = false
+		if res != Sat || !wantModel {
+			return res, nil
+		}
+		if len(sl) == len(cons)+len(defs) {
+			return res, ex.model()
+		}
+		ex.Queries++
+	}
+	all := append(append([]*Term(nil), cons...), defs...)
+	ex.S.NeedModel = wantModel
+	res := ex.S.Check(ex.C, all)
 	ex.S.NeedModel = false
 	if res != Sat || !wantModel {
 		return res, nil
